@@ -234,4 +234,105 @@ def cstep (c : Cfg) (r : Regs) (s : CState) (i : CIn) : CState × COut :=
       dma := dma' }
   ((if i.reset then { cmdCounter := cmdCounter', dataCounter := dataCounter' } else s'), out)
 
+/-! ### _LiteDRAMPatternGenerator / _LiteDRAMPatternChecker (address/data pairs from an initialised memory) -/
+
+inductive PFsm | idle | wait | run | done
+deriving Repr, DecidableEq
+
+structure PGState where
+  fsm : PFsm := .idle
+  cmdCounter : Nat := 0
+  ticks : Nat := 0
+  dma : Dma.WState := {}
+deriving Repr
+
+def patAddr (c : Cfg) (a : Nat) : Nat :=
+  if c.axi then (a % 2 ^ (c.aw - c.ashift)) * 2 ^ c.ashift else a % 2 ^ c.aw
+
+def pgstep (c : Cfg) (init : List (Nat × Nat)) (s : PGState) (i : GIn) : PGState × GOut :=
+  let sinkValid := s.fsm == .run
+  let e := init.getD s.cmdCounter (0, 0)
+  let addr := patAddr c e.1
+  let data := e.2 % 2 ^ c.dw
+  let (dma', po) := Dma.wstep c.dma s.dma ⟨sinkValid, addr, data, false, i.cmdReady, i.wdataReady⟩
+  let acc := sinkValid && po.sinkReady
+  let out : GOut :=
+    { done := s.fsm == .done, ticks := s.ticks, cascadeOut := acc || s.fsm == .done,
+      sinkValid, sinkReady := po.sinkReady, sinkAddr := addr, sinkData := data, port := po }
+  let fsm' : PFsm :=
+    match s.fsm with
+    | .idle => if i.start then .run else .idle
+    | .wait => if i.cascadeIn then .run else .wait
+    | .run => if acc then (if s.cmdCounter + 1 == init.length then .done else if !i.cascadeIn then .wait else .run) else .run
+    | .done => .done
+  let cmdCounter' :=
+    match s.fsm with
+    | .idle => if i.start then 0 else s.cmdCounter
+    | .run => if acc then (s.cmdCounter + 1) % 2 ^ c.aw else s.cmdCounter
+    | _ => s.cmdCounter
+  let ticks' :=
+    match s.fsm with
+    | .idle => 0
+    | .run => (s.ticks + 1) % 2 ^ 32
+    | _ => s.ticks
+  let s' : PGState := { fsm := fsm', cmdCounter := cmdCounter', ticks := ticks', dma := dma' }
+  ((if i.reset then { cmdCounter := cmdCounter' } else s'), out)
+
+structure PCState where
+  cmdFsm : PFsm := .idle
+  dataFsm : DFsm := .idle
+  cmdCounter : Nat := 0
+  dataCounter : Nat := 0
+  errors : Nat := 0
+  ticks : Nat := 0
+  dma : Dma.RState := {}
+deriving Repr
+
+def pcstep (c : Cfg) (init : List (Nat × Nat)) (s : PCState) (i : CIn) : PCState × COut :=
+  let sinkValid := s.cmdFsm == .run
+  let srcReady := s.dataFsm == .run
+  let addr := patAddr c (init.getD s.cmdCounter (0, 0)).1
+  let (dma', po) := Dma.rstep c.dma s.dma ⟨true, sinkValid, addr, false, i.cmdReady, i.rdataValid, i.rdata, srcReady⟩
+  let cacc := sinkValid && po.sinkReady
+  let dacc := srcReady && po.srcValid
+  let expect := (init.getD s.dataCounter (0, 0)).2 % 2 ^ c.dw
+  let out : COut :=
+    { done := s.dataFsm == .done, errors := s.errors, ticks := s.ticks, cascadeOut := cacc, cmdAcc := cacc, dataAcc := dacc,
+      data := po.srcData, addr, port := po }
+  let cmdFsm' : PFsm :=
+    match s.cmdFsm with
+    | .idle | .done => if i.start then (if i.cascadeIn then .run else .wait) else s.cmdFsm
+    | .wait => if i.cascadeIn then .run else .wait
+    | .run => if cacc then (if s.cmdCounter + 1 == init.length then .done else if !i.cascadeIn then .wait else .run) else .run
+  let cmdCounter' :=
+    match s.cmdFsm with
+    | .idle | .done => if i.start then 0 else s.cmdCounter
+    | .run => if cacc then (s.cmdCounter + 1) % 2 ^ c.aw else s.cmdCounter
+    | _ => s.cmdCounter
+  let dataFsm' : DFsm :=
+    match s.dataFsm with
+    | .idle => if i.start then .run else .idle
+    | .run => if dacc && s.dataCounter + 1 == init.length then .done else .run
+    | .done => .done
+  let dataCounter' :=
+    match s.dataFsm with
+    | .idle => if i.start then 0 else s.dataCounter
+    | .run => if dacc then (s.dataCounter + 1) % 2 ^ c.aw else s.dataCounter
+    | .done => s.dataCounter
+  let errors' :=
+    match s.dataFsm with
+    | .idle => if i.start then 0 else s.errors
+    | .run => if dacc && po.srcData != expect then (s.errors + 1) % 2 ^ 32 else s.errors
+    | .done => s.errors
+  -- `ticks` is written by both FSMs; the data FSM's assignment comes later and wins where it makes one
+  let ticks' :=
+    match s.dataFsm with
+    | .idle => 0
+    | .run => (s.ticks + 1) % 2 ^ 32
+    | .done => if s.cmdFsm == .wait then (s.ticks + 1) % 2 ^ 32 else s.ticks
+  let s' : PCState :=
+    { cmdFsm := cmdFsm', dataFsm := dataFsm', cmdCounter := cmdCounter', dataCounter := dataCounter',
+      errors := errors', ticks := ticks', dma := dma' }
+  ((if i.reset then { cmdCounter := cmdCounter', dataCounter := dataCounter' } else s'), out)
+
 end Bist
